@@ -394,7 +394,7 @@ def same(ctx, x, ref, check_kind=None, attrs=None):
     """DimArray x equals the reference: dims, labels, shape, every cell (and optionally dtype kind, attrs)"""
     da = ctx.da
     if not isinstance(x, da.DimArray):
-        if not ref.dims and len(ref.cells) == 1 and not isinstance(x, (list, tuple, dict)) and not hasattr(x, 'shape'):
+        if not ref.dims and len(ref.cells) == 1 and not isinstance(x, (list, tuple, dict, da.Dataset)) and getattr(x, 'ndim', 0) == 0:
             return ctx.eq(ctx.scalar(x), ref.cells[0])
         return False
     if tuple(x.dims) != ref.dims:
